@@ -104,7 +104,17 @@ func StdEnv() []EnvVal {
 		{"ref", &dtpb.Reference{Reference: &dtpb.Reference_PatientId{PatientId: &dtpb.ReferenceId{Value: "p1"}}}, "elem-complex"},
 		{"ext", &dtpb.Extension{Url: &dtpb.Uri{Value: "http://e/x"}, Value: &dtpb.Extension_ValueX{Choice: &dtpb.Extension_ValueX_StringValue{StringValue: &dtpb.String{Value: "v"}}}}, "elem-complex"},
 		{"pat", StdPatient(), "resource"},
+		{"long", longStrings(), "multi"},
 	}
+}
+
+// longStrings: 40 strings, 25 distinct, repeats scattered (longer than any small-collection fast path).
+func longStrings() system.Collection {
+	var c system.Collection
+	for i := 0; i < 40; i++ {
+		c = append(c, system.String("s"+string(rune('a'+(i*7)%25))))
+	}
+	return c
 }
 
 // EnvOpts converts environment values to evaluate options.
